@@ -200,6 +200,16 @@ func propTable() map[string]*PropSpec {
 				q = append(q, c)
 			}
 		}
+		for _, me := range []int{2, 3} {
+			for kind := 1; kind <= 2; kind++ {
+				c := rc(fmt.Sprintf("C12_ElectionAfterMessage/me=%d/kind=%d", me, kind), ".", "C12_ElectionAfterMessage", map[string]int{"me": me, "kind": kind})
+				c.RequireReach = []string{"C12.election_after_message.done"}
+				th = append(th, c)
+				if me == 3 {
+					q = append(q, c)
+				}
+			}
+		}
 		fq := rc("C12_FullQueue", ".", "C12_FullQueue", nil)
 		fq.MaxLoop = 1200
 		fq.RequireReach = []string{"C12.fullqueue.done"}
